@@ -860,6 +860,7 @@ func runFF(o *Opts) *Summary {
 					gossip(o.Steps/3, others)
 				}
 			}
+			preSeq := g.core.Seq()
 			g.node.VTransition(_state.CatchingUp)
 			w.Emit(g.num, "StateChange", map[string]interface{}{"from": "Babbling", "to": "CatchingUp", "why": "driver"}, nil)
 			for q := 0; q < 4; q++ {
@@ -886,6 +887,30 @@ func runFF(o *Opts) *Summary {
 			vn.down = map[int]bool{}
 			if g.State() != "Babbling" {
 				g.node.VTransition(_state.Babbling)
+			}
+			// A node that reset below its own tip has forgotten events of its own that the
+			// others hold.  Before it creates anything it gets them back: one pull, with
+			// the sync limits lifted, from the peer that holds most (a truncated first
+			// response could leave them out and the node would sign other events at
+			// the same heights - a self-fork the property excludes).
+			if g.core.Seq() < preSeq {
+				var src *NNode
+				for _, nd := range all {
+					if nd != g && nd.State() == "Babbling" && (src == nil || len(nd.view) > len(src.view)) {
+						src = nd
+					}
+				}
+				if src != nil {
+					old := map[*NNode]int{}
+					for _, nd := range all {
+						old[nd] = nd.conf.SyncLimit
+						nd.conf.SyncLimit = 1000000
+					}
+					vn.Pull(g, src, true)
+					for nd, l := range old {
+						nd.conf.SyncLimit = l
+					}
+				}
 			}
 			gossip(o.Steps/4, all)
 		}
